@@ -91,11 +91,14 @@ bool vf_viol(const char *prop, const char *key, const char *fmt, ...)
 extern int vf_nviol;
 /* violation already recorded for the current case? */
 bool vf_case_failed(void);
+void vf_abort_case(void);   /* record CRASH for the current case and exit(42): the driver restarts after it */
 
 /* ---- CPU watchdog (ITIMER_VIRTUAL) --------------------------------------- */
 void vf_cpu_arm(const char *what, int millis);
 void vf_cpu_arm_prop(const char *prop, const char *what, int millis);  /* hang attributed to `prop` */
 void vf_cpu_disarm(void);
+void vf_wall_arm(int seconds);      /* stall watchdog: firing is inconclusive, not a violation */
+void vf_wall_disarm(void);
 
 /* ---- sanitizer attribution ---------------------------------------------- */
 /* true when a sanitizer report (ASan callback or growth of the sanitizer log)
